@@ -24,7 +24,7 @@ from fractions import Fraction as F
 import core
 from core import cz, cq, clist, ctuple, cbool
 
-EXPECT_MIN = 1
+EXPECT_MIN = 9
 PAIRS = [(480, 500000), (96, 600000), (1000, 333333), (1, 10 ** 6), (4, 250000), (384, 250000), (960, 1000000)]
 KEYNAMES = ["Cb", "Gb", "Db", "Ab", "Eb", "Bb", "F", "C", "G", "D", "A", "E", "B", "F#", "C#",
             "Abm", "Ebm", "Bbm", "Fm", "Cm", "Gm", "Dm", "Am", "Em", "Bm", "F#m", "C#m", "G#m", "D#m", "A#m"]
